@@ -11,6 +11,8 @@ Op lines (`T` is a name bound by a `ty` line to the *element* / key type unless 
   fmap F <list> <results>       (Fe / Fr bound to element / result type; k-th call returns results[k])
   fmaps F <string> <results>    (F bound to the result type)
   join T <list of lists>        joins string <list of strings>
+  sortcmp T <list>   mincmp|maxcmp T <list> <default>   min2cmp|max2cmp T <a> <b>
+                                (sort / min / max against the emitted Compare, decided on the Go side)
   containseq T <list> <item>    uniqueeq|seteq T <list>    unioneq|intersecteq T <this> <that>
                                 (consistency of the emitted helpers with the emitted Equal, NaN allowed;
                                  decided on the Go side, the model answers `true`)
@@ -28,6 +30,7 @@ import GoderiveModel.U.Typing
 import GoderiveModel.S.Lists
 import GoderiveModel.Spec.Lists
 import GoderiveModel.Spec.StructEq
+import GoderiveModel.Spec.StructEqM
 import GoderiveModel.Spec.Order
 import Driver.State
 
@@ -187,12 +190,25 @@ def specLogUntil (stop : Bool) (bits : List Bool) (xs : List Val) : List Val :=
   let k := (zs.takeWhile (fun z => z.2 != stop)).length
   xs.take (k + 1)
 
-def specSort (xs : List Val) : List String :=
-  canonRuns (fun a b => Spec.cmpVal a b == 0) (xs.mergeSort (fun a b => Spec.cmpVal a b ≤ 0))
+/-- the three-way verdict the order clauses refer to: the structural order `Spec.cmpVal`; for element types
+that reach a declaration with its own methods "derived Compare" is the method-aware `CompareM.top`
+(the clauses of C13 are relative to derived Compare, whose own correctness is C03) -/
+def specCmp (env : Env) (E : Ty) : Val → Val → Int :=
+  if mentionsMethods env E then fun a b => match CompareM.top env E a b with
+    | .ok c => c
+    | .panic => 0
+  else Spec.cmpVal
+
+/-- likewise the Equal verdict the clauses of C14 refer to -/
+def specEq (env : Env) (E : Ty) : Val → Val → Bool :=
+  if mentionsMethods env E then Spec.structEqTopM env E else Spec.structEq env E
+
+def specSort (c : Val → Val → Int) (xs : List Val) : List String :=
+  canonRuns (fun a b => c a b == 0) (xs.mergeSort (fun a b => c a b ≤ 0))
 
 /-- an element that no other element precedes (`dir = 1`) / follows (`dir = -1`) -/
-def specExtreme (dir : Int) (xs : List Val) (dflt : Val) : Val :=
-  match xs.find? (fun m => xs.all (fun y => dir * Spec.cmpVal y m ≥ 0)) with
+def specExtreme (c : Val → Val → Int) (dir : Int) (xs : List Val) (dflt : Val) : Val :=
+  match xs.find? (fun m => xs.all (fun y => dir * c y m ≥ 0)) with
   | some m => m
   | none => dflt
 
@@ -201,7 +217,8 @@ def specExtreme (dir : Int) (xs : List Val) (dflt : Val) : Val :=
 def names : List String :=
   ["sort", "keys", "min", "max", "min2", "max2", "contains", "unique", "set", "unionl", "intersectl",
    "unionm", "intersectm", "filter", "takewhile", "all", "any", "fmap", "fmaps", "join", "joins",
-   "containseq", "uniqueeq", "seteq", "unioneq", "intersecteq"]
+   "containseq", "uniqueeq", "seteq", "unioneq", "intersecteq",
+   "sortcmp", "mincmp", "maxcmp", "min2cmp", "max2cmp"]
 
 def ans (model spec : String) : String := s!"model={model} spec={spec}"
 
@@ -212,11 +229,11 @@ def runM (s : DState) (name : String) (args : List SExp) : M String := do
   | "sort", [t, l] =>
     let E ← getTy s t
     let xs ← getList env E l
-    match sortLess env E with
+    match sortLessM env E with
     | none => pure (ans "unsupported" "unsupported")
     | some less =>
       let eqv := fun a b => !resTrue (less a b) && !resTrue (less b a)
-      let spec := bracket (specSort xs.elems)
+      let spec := bracket (specSort (specCmp env E) xs.elems)
       let model := match Lists.sort insertionSort less xs with
         | .panic => "panic"
         | .ok out => bracket (canonRuns eqv out.elems) ++ ";" ++ nilness out ++ "," ++ bracket (canonRuns eqv out.elems)
@@ -237,8 +254,8 @@ def runM (s : DState) (name : String) (args : List SExp) : M String := do
     let xs ← getList env E l
     let dv ← getVal env E d
     let isMin := name == "min"
-    let r := if isMin then minList (minLt env E) xs dv else minList (maxGt env E) xs dv
-    let spec := canonN (specExtreme (if isMin then 1 else -1) xs.elems dv)
+    let r := if isMin then minList (minLtM env E) xs dv else minList (maxGtM env E) xs dv
+    let spec := canonN (specExtreme (specCmp env E) (if isMin then 1 else -1) xs.elems dv)
     let model := match r with
       | .panic => "panic"
       | .ok m => canonN m ++ ";" ++ canon m
@@ -248,9 +265,9 @@ def runM (s : DState) (name : String) (args : List SExp) : M String := do
     let av ← getVal env E a
     let bv ← getVal env E b
     let isMin := name == "min2"
-    let r := if isMin then min2 (minLt env E) av bv else min2 (maxGt env E) av bv
+    let r := if isMin then min2 (minLtM env E) av bv else min2 (maxGtM env E) av bv
     -- the two-value forms return the second argument on a tie
-    let spec := canonN (specExtreme (if isMin then 1 else -1) [bv, av] bv)
+    let spec := canonN (specExtreme (specCmp env E) (if isMin then 1 else -1) [bv, av] bv)
     let model := match r with
       | .panic => "panic"
       | .ok m => canonN m ++ ";" ++ canon m
@@ -259,8 +276,8 @@ def runM (s : DState) (name : String) (args : List SExp) : M String := do
     let E ← getTy s t
     let xs ← getList env E l
     let xv ← getVal env E x
-    let spec := toString (Spec.containsBy (Spec.structEq env E) xs.elems xv)
-    let model := match contains (elemEq env E) xv xs.elems with
+    let spec := toString (Spec.containsBy (specEq env E) xs.elems xv)
+    let model := match contains (elemEqM env E) xv xs.elems with
       | .panic => "panic"
       | .ok b => toString b ++ ";"
     pure (ans model spec)
@@ -268,9 +285,9 @@ def runM (s : DState) (name : String) (args : List SExp) : M String := do
     let E ← getTy s t
     let xs ← getList env E l
     let useMap := uniqueUsesMap env E
-    let d := Spec.dedupFirst (Spec.structEq env E) xs.elems
+    let d := Spec.dedupFirst (specEq env E) xs.elems
     let spec := if useMap then showSortedE canonN d else showE d
-    let model := match unique useMap id (Hash.top env E) (Equal.top env E) xs with
+    let model := match unique useMap id (HashM.top env E) (EqualM.top env E) xs with
       | .panic => "panic"
       | .ok (out, after) =>
         if useMap then
@@ -281,15 +298,15 @@ def runM (s : DState) (name : String) (args : List SExp) : M String := do
   | "set", [t, l] =>
     let E ← getTy s t
     let xs ← getList env E l
-    let spec := showSortedE canonN (Spec.dedupFirst (Spec.structEq env E) xs.elems)
+    let spec := showSortedE canonN (Spec.dedupFirst (specEq env E) xs.elems)
     let out := Lists.set xs
     pure (ans (showSortedE canonN out ++ ";s," ++ showSortedE canon out) spec)
   | "unionl", [t, a, b] =>
     let E ← getTy s t
     let this ← getList env E a
     let that ← getList env E b
-    let spec := showE (Spec.unionBy (Spec.structEq env E) this.elems that.elems)
-    let model := match unionList (elemEq env E) this that with
+    let spec := showE (Spec.unionBy (specEq env E) this.elems that.elems)
+    let model := match unionList (elemEqM env E) this that with
       | .panic => "panic"
       | .ok out => showE out.elems ++ ";" ++ nilness out ++ "," ++ showL this ++ "," ++ showL that ++ ","
           ++ aliasFlag (out.isSome && this.isSome &&
@@ -299,8 +316,8 @@ def runM (s : DState) (name : String) (args : List SExp) : M String := do
     let E ← getTy s t
     let this ← getList env E a
     let that ← getList env E b
-    let spec := showE (Spec.intersectBy (Spec.structEq env E) this.elems that.elems)
-    let model := match intersectList (elemEq env E) this that with
+    let spec := showE (Spec.intersectBy (specEq env E) this.elems that.elems)
+    let model := match intersectList (elemEqM env E) this that with
       | .panic => "panic"
       | .ok out => showE out.elems ++ ";" ++ nilness out ++ ",ff"
     pure (ans model spec)
@@ -326,6 +343,22 @@ def runM (s : DState) (name : String) (args : List SExp) : M String := do
     pure (ans (showSortedE canonN out ++ ";s," ++ showSortedE canon out) spec)
   -- consistency of the emitted helpers with the emitted Equal (evaluated on the Go side on the emitted
   -- functions themselves, values may hold NaN): the arguments are only type-checked here
+  -- consistency of sort / min / max with the emitted Compare, decided on the Go side (element types whose
+  -- own Compare method the model does not know): the arguments are only type-checked here
+  | "sortcmp", [t, l] =>
+    let E ← getTy s t
+    let _ ← getList env E l
+    pure (ans "true;" "true")
+  | "mincmp", [t, l, d] | "maxcmp", [t, l, d] =>
+    let E ← getTy s t
+    let _ ← getList env E l
+    let _ ← getVal env E d
+    pure (ans "true;" "true")
+  | "min2cmp", [t, a, b] | "max2cmp", [t, a, b] =>
+    let E ← getTy s t
+    let _ ← getVal env E a
+    let _ ← getVal env E b
+    pure (ans "true;" "true")
   | "containseq", [t, l, x] =>
     let E ← getTy s t
     let _ ← getList env E l
